@@ -1,3 +1,4 @@
+(* [deepened: mgm_refines_rounds / mgm_async_monotone are now theorems, see 'deepening' below] *)
 (* Prop_C03.v -- C03: MGM (and MGM2) never worsen the global cost between cycles.
    Only statements; each closed by an exact lemma from P_Mgm / P_Mgm2.
 
@@ -13,7 +14,7 @@
    "the asynchronous handlers compute mgm_next at every cycle boundary under every FIFO schedule"
    (mgm_refines_rounds); it is checked on every run by M_Mgm.rcheck_case, which replays
    [round_exec] against the cycle-boundary assignments of the real asynchronous executions. *)
-From PyDcop Require Import Base Net M_Mgm P_Mgm M_Mgm2 P_Mgm2.
+From PyDcop Require Import Base Net M_Mgm P_Mgm M_Mgm2 P_Mgm2 P_Mgm3 P_Mgm3c P_Mgm3b.
 
 (* no two variables sharing a constraint both move in the same cycle (strict best signed gain
    among neighbours, lexical tie-break) *)
@@ -32,6 +33,33 @@ Theorem mgm_rounds_monotone_partial : forall d, wf_dcop d = true -> forall drs a
   if d_max d then gcost d a <= gcost d (fold_left (mgm_next d) drs a)
   else gcost d (fold_left (mgm_next d) drs a) <= gcost d a.
 Proof. exact mgm_rounds_monotone_lemma. Qed.
+
+(* ------------------------------------------------------------------ deepening (P_Mgm3*.v)
+   mgm_refines_rounds is now a THEOREM: in every reachable configuration of the asynchronous
+   handlers (any schedule of starts and FIFO deliveries), a started computation whose cycle counter
+   is c holds the value of the synchronous reference run after c-1 rounds ([RA d orc j] = the j-fold
+   iteration of M_Mgm.mgm_next from the start values, every node using its own draws) -- so the
+   _partial round theorems above ARE statements about real executions at cycle boundaries. *)
+Theorem mgm_refines_rounds : forall d stop orc cf n, 0 <= stop ->
+  reachable (mgm_proto d stop orc) cf -> w_running (nodes cf n) = true ->
+  m_value (w_st (nodes cf n)) = Some (RA d orc (Z.to_nat (m_cycle (w_st (nodes cf n)) - 1)) n).
+Proof. exact mgm_refines_rounds_closed. Qed.
+
+(* C03 for asynchronous executions: [at_boundary d cf j] = every variable is started and those that
+   take part in cycles have completed exactly j of them; between ANY reachable configuration at
+   boundary j and ANY at boundary j+1 the global cost of the held assignment does not get worse *)
+Theorem mgm_async_monotone : forall d stop orc, 0 <= stop -> forall cf1 cf2 j, wf_dcop d = true ->
+  reachable (mgm_proto d stop orc) cf1 -> reachable (mgm_proto d stop orc) cf2 ->
+  at_boundary d cf1 j -> at_boundary d cf2 (S j) ->
+  if d_max d then gcost d (held cf1) <= gcost d (held cf2) else gcost d (held cf2) <= gcost d (held cf1).
+Proof. exact mgm_async_monotone_l. Qed.
+
+(* ... and no two constraint-sharing variables both changed their value in that cycle *)
+Theorem mgm_async_movers_independent : forall d stop orc, 0 <= stop -> forall cf1 cf2 j n m,
+  reachable (mgm_proto d stop orc) cf1 -> reachable (mgm_proto d stop orc) cf2 ->
+  at_boundary d cf1 j -> at_boundary d cf2 (S j) -> In n (ids d) -> In m (ids d) ->
+  held cf2 n <> held cf1 n -> held cf2 m <> held cf1 m -> In m (nbrs d n) -> False.
+Proof. exact mgm_async_movers_independent_l. Qed.
 
 (* MGM2: the statement is FALSE of the code as it is (known finding C03-mgm2-coordinated-gain:
    _find_best_offer counts the current cost of the constraints shared with the offerer as gain; the
@@ -57,4 +85,22 @@ Example c03_nonvacuous :
   let a1 := mgm_next ex_d a (fun _ => 0) in
   wf_dcop ex_d = true /\ gcost ex_d a = 12 /\ map a1 [0; 1; 2] = [0; 1; 0] /\ gcost ex_d a1 = 6
   /\ map (mgm_next ex_d a1 (fun _ => 0)) [0; 1; 2] = [0; 1; 1].
+Proof. vm_compute. repeat split; reflexivity. Qed.
+
+(* the hypotheses of mgm_async_monotone are met by real runs: on ex_d with stop_cycle 3, after
+   "start all, deliver every value then every gain" the three computations are at boundary 1, the
+   initial configuration after the starts is at boundary 0, and the held assignments are those of
+   c03_nonvacuous *)
+Definition ex_orc : node -> list Z := fun _ => [0; 0; 0].
+Definition ex_s0 : list (@action) := [Start 0; Start 1; Start 2].
+Definition ex_s1 : list (@action) :=
+  ex_s0 ++ [Deliver 0 1; Deliver 1 0; Deliver 1 2; Deliver 2 1; Deliver 0 1; Deliver 1 0; Deliver 1 2; Deliver 2 1].
+Example c03_async_nonvacuous :
+  let c0 := fst (run (mgm_proto ex_d 3 ex_orc) ex_s0) in
+  let c1 := fst (run (mgm_proto ex_d 3 ex_orc) ex_s1) in
+  map (fun n => (w_running (nodes c0 n), m_cycle (w_st (nodes c0 n)), held c0 n)) [0; 1; 2]
+    = [(true, 1, 0); (true, 1, 0); (true, 1, 0)]
+  /\ map (fun n => (w_running (nodes c1 n), m_cycle (w_st (nodes c1 n)), held c1 n)) [0; 1; 2]
+    = [(true, 2, 0); (true, 2, 1); (true, 2, 0)]
+  /\ gcost ex_d (held c0) = 12 /\ gcost ex_d (held c1) = 6.
 Proof. vm_compute. repeat split; reflexivity. Qed.
